@@ -30,6 +30,7 @@ func nodeProps() map[string]simrt.Prop {
 		"SMOKE": {Run: runSmoke, Opt: opt},
 		"C07":   {Run: runNode("C07"), Opt: opt},
 		"C08":   {Run: runNode("C08"), Opt: opt},
+		"C08h2": {Run: runC08h2, Opt: opt},
 		"C26":   {Run: runNode("C26"), Opt: opt},
 		"C27":   {Run: runNode("C27"), Opt: opt},
 		"C28":   {Run: runNode("C28"), Opt: opt},
@@ -68,6 +69,16 @@ func runNode(focus string) func(s *simrt.Sim) {
 		switch focus {
 		case "C07":
 			e.abort = true
+			if e.faults {
+				// health checking that really takes backends out and brings them back
+				for _, cl := range e.conf.Clusters {
+					if tp.Chance(1, 2, "health_check_live") {
+						cl.FailNum = tp.Range(1, 3, "fail_num")
+						cl.SuccNum = tp.Range(1, 2, "succ_num")
+						cl.CheckInterval = []int{20, 100, 1000}[tp.Draw(3, "check_interval")]
+					}
+				}
+			}
 		case "C25":
 			e.hostile = true
 		case "C29":
@@ -91,7 +102,8 @@ func runNode(focus string) func(s *simrt.Sim) {
 			e.conf.CompressFlush = []int{64, 512, 4096}[tp.Draw(3, "compress_flush")]
 		}
 		// forward-phase filter verdicts (C07): per request id, drawn up front
-		fwdFinish := map[int]bool{}
+		fwdFinish := map[int]int{} // HandleForward filter answers BfeHandlerFinish from this attempt on (1 = first)
+		fwdSeen := map[int]int{}
 		finFinish := map[int]bool{} // HandleRequestFinish filter answers BfeHandlerFinish
 		rspFinish := map[int]bool{} // HandleReadResponse filter answers BfeHandlerFinish
 		id := 0
@@ -111,7 +123,7 @@ func runNode(focus string) func(s *simrt.Sim) {
 					}
 				}
 				if focus == "C07" && e.faults && tp.Chance(1, 6, "fwd_finish") {
-					fwdFinish[id] = true
+					fwdFinish[id] = 1 + tp.Draw(3, "fwd_finish_attempt")
 				}
 				if focus == "C07" && e.faults && tp.Chance(1, 6, "fin_finish") {
 					finFinish[id] = true
@@ -119,9 +131,21 @@ func runNode(focus string) func(s *simrt.Sim) {
 				if focus == "C07" && e.faults && tp.Chance(1, 8, "rsp_finish") {
 					rspFinish[id] = true
 				}
+				bad := focus == "C28" && e.faults && pipeline > 1 && k > 0 && tp.Chance(1, 4, "bad_request")
+				if bad {
+					// a request BFE refuses by itself (it answers 400 and closes), pipelined behind good ones
+					p.Bad = true
+					p.Raw = []byte(fmt.Sprintf("GET %s HTTP/1.1\r\nHost: %s\r\n%s\r\n\r\n", p.Path, p.Host,
+						[]string{"this line has no colon", " leading-space: continuation of nothing", "Bad Name: x"}[tp.Draw(3, "bad_request.kind")]))
+					p.Method, p.Body, p.Chunked = "GET", nil, false
+					s.Probe("c28_bad_request_pipelined")
+				}
 				e.plans[id] = p
 				list = append(list, p)
 				id++
+				if bad {
+					break // nothing can follow on this connection
+				}
 			}
 			e.byConn = append(e.byConn, list)
 			e.clients = append(e.clients, &clientRec{Conn: ci})
@@ -138,7 +162,7 @@ func runNode(focus string) func(s *simrt.Sim) {
 				bfe_module.HandleFoundProduct:   {vClose, vFinish, vRedirect, vResponse},
 				bfe_module.HandleAfterLocation:  {vClose, vFinish, vRedirect, vResponse},
 				bfe_module.HandleForward:        {vFinish},
-				bfe_module.HandleReadResponse:   {vFinish},
+				bfe_module.HandleReadResponse:   {vFinish, vRedirect},
 				bfe_module.HandleRequestFinish:  {vFinish},
 			}, 5)
 		case "C28":
@@ -162,8 +186,13 @@ func runNode(focus string) func(s *simrt.Sim) {
 		s.Invariant(e.connInvariant)
 		if len(fwdFinish) > 0 {
 			n.srv.CallBacks.AddFilter(bfe_module.HandleForward, func(req *bfe_basic.Request) int {
-				if fwdFinish[reqIDOf(req.HttpRequest.URL.Path)] {
+				rid := reqIDOf(req.HttpRequest.URL.Path)
+				fwdSeen[rid]++
+				if at := fwdFinish[rid]; at > 0 && fwdSeen[rid] >= at {
 					s.Probe("forward_filter_finish")
+					if fwdSeen[rid] > 1 {
+						s.Probe("forward_filter_finish_on_retry")
+					}
 					return bfe_module.BfeHandlerFinish
 				}
 				return bfe_module.BfeHandlerGoOn
@@ -340,9 +369,10 @@ func (e *eng) checkC27() {
 					// on a connection that then stays open
 					wantLen := len(ap.Resp.Body)
 					fromBackend := len(m.Get("X-Backend-Id")) > 0 && m.Get("X-Backend-Id")[0] == ap.Resp.Fields[0].Value // not BFE's own error page
-					// (a chunked body that ends with its terminator is complete for the client whether or
-					// not the connection closes afterwards)
-					if p.Method != "HEAD" && fromBackend && m.Status == ap.Resp.Status && len(m.Body) < wantLen && (m.Framing == "chunked" || !cr.Closed && i == len(cr.Sent)-1) {
+					// (a chunked body that ends with its terminator, or a body as long as its
+					// Content-Length says, is complete for the client whether or not the
+					// connection closes afterwards)
+					if p.Method != "HEAD" && fromBackend && m.Status == ap.Resp.Status && len(m.Body) < wantLen && (m.Framing == "chunked" || m.Framing == "length" || !cr.Closed && i == len(cr.Sent)-1) {
 						s.FailK("C27.truncation", "truncated-body-delivered-as-complete", "req %d: backend failed mid-body (%d of %d bytes) but the client got a complete-looking %d-byte response on a connection that stays open",
 							p.ID, len(m.Body), wantLen, len(m.Body))
 						return
@@ -483,6 +513,15 @@ func (e *eng) checkC28() {
 				}
 			}
 		}
+		// BFE's own 400 means it could not parse what it took for a request: every request
+		// sent here but the marked ones is well-formed, so it was reading something else
+		// (a request that a read deadline cut in the middle is not well-formed as the server saw it)
+		for i, m := range fin {
+			if m.Status == 400 && len(m.Get("X-Backend-Id")) == 0 && !cr.Sent[i].Bad && s.Faults.Get("read_deadline") == 0 {
+				s.FailK("C28.desync", "well-formed-request-answered-400", "conn %d: response #%d is BFE's own 400 although request r%d (%s, body %d, chunked %v) is well-formed: bytes of an earlier message were taken for a request?", cr.Conn, i, cr.Sent[i].ID, cr.Sent[i].Method, len(cr.Sent[i].Body), cr.Sent[i].Chunked)
+				return
+			}
+		}
 		if len(fin) < len(cr.Sent) && !cr.Closed && !cr.TimedOut {
 			s.FailK("C28.count", "missing-response-on-open-connection", "conn %d: %d requests sent, %d responses, connection still open", cr.Conn, len(cr.Sent), len(fin))
 			return
@@ -566,7 +605,7 @@ func (e *eng) checkC08() {
 			if len(as) == 0 {
 				continue
 			}
-			cl := e.conf.Clusters[p.Conn]
+			cl := p // the settings in force when the request was sent
 			s.Checked(1)
 			if len(as) > 1+cl.RetryMax+cl.CrossRetry {
 				s.FailK("C08.bound", "too-many-attempts", "request r%d was attempted %d times; RetryMax=%d CrossRetry=%d", p.ID, len(as), cl.RetryMax, cl.CrossRetry)
@@ -745,9 +784,46 @@ func (e *eng) checkC48() {
 				}
 			}
 		}
+		// a redirect answer is the redirect and nothing else
+		redirectBody := func(method, loc string) string {
+			if method == "GET" {
+				return "<a href=\"" + loc + "\">Found</a>.\n\n"
+			}
+			return ""
+		}
+		checkRedirect := func(i int, p *reqPlan, point, idx int) bool {
+			if i >= len(fin) {
+				return true
+			}
+			m := fin[i]
+			loc := fmt.Sprintf("/moved/r%d/p%d/f%d", p.ID, point, idx)
+			if m.Status != 302 || len(m.Get("Location")) != 1 || m.Get("Location")[0] != loc {
+				s.FailK("C48.redirect", "redirect-verdict-altered", "request r%d: redirect to %s (302) arrived as status %d Location=%v", p.ID, loc, m.Status, m.Get("Location"))
+				return false
+			}
+			if string(m.Body) != redirectBody(p.Method, loc) {
+				s.FailK("C48.redirect", "redirect-carries-other-content", "request r%d (%s): %s#%d answered redirect, the client received the 302 with a %d-byte body %q instead of the redirect note", p.ID, p.Method, bfe_module.CallbackPointName(point), idx, len(m.Body), clip(m.Body, 120))
+				return false
+			}
+			return true
+		}
 		for i, p := range cr.Sent {
 			point, idx, v, ok := f.firstRequestVerdict(p.ID)
+			// a response-phase filter may replace whatever response there is by a redirect
+			rspRedirect := -1
+			for _, x := range f.execs {
+				if x.ReqID == p.ID && x.Point == bfe_module.HandleReadResponse && x.Verdict == vRedirect {
+					rspRedirect = x.Idx
+				}
+			}
 			if !ok {
+				if rspRedirect >= 0 {
+					s.Checked(1)
+					if !checkRedirect(i, p, bfe_module.HandleReadResponse, rspRedirect) {
+						return
+					}
+					s.Probe("c48_response_phase_redirect_checked")
+				}
 				continue
 			}
 			processed, ran := false, false
@@ -788,6 +864,9 @@ func (e *eng) checkC48() {
 						v = vFinish
 					}
 				}
+				if rspRedirect >= 0 {
+					v, point, idx = vRedirect, bfe_module.HandleReadResponse, rspRedirect
+				}
 			}
 			switch v {
 			case vClose:
@@ -821,10 +900,7 @@ func (e *eng) checkC48() {
 					s.FailK("C48.redirect", "redirect-verdict-not-delivered", "request r%d: filter answered redirect, the client got nothing", p.ID)
 					return
 				}
-				m := fin[i]
-				loc := fmt.Sprintf("/moved/r%d/p%d/f%d", p.ID, point, idx)
-				if m.Status != 302 || len(m.Get("Location")) != 1 || m.Get("Location")[0] != loc {
-					s.FailK("C48.redirect", "redirect-verdict-altered", "request r%d: redirect to %s (302) arrived as status %d Location=%v", p.ID, loc, m.Status, m.Get("Location"))
+				if !checkRedirect(i, p, point, idx) {
 					return
 				}
 				s.Probe("c48_redirect_checked")
